@@ -18,14 +18,15 @@ interpreter deviate from PEG; each has a negation witness below
 text — the same witnesses are replayed against the real textX in `corpus/C01`).
 
 What is proved for all inputs is `C01_expr_partial`: on the rule-free core of
-PEG — string matches, sequence, ordered choice, `?`, `*`, `+` — under
+PEG — string matches, sequence, ordered choice, `?`, `*`, `+`, with the suppression
+operator `-` on any of them — under
 `DocFragment` (`docExpr`: productive alternatives and repetition bodies) the node
 block the compiler emits for an expression, placed anywhere in a parser model,
 is interpreted by the Arpeggio mirror exactly as the documented semantics
 prescribe: same acceptance, same end position, same matched tokens — for every
 text, every token table without empty matches, every whitespace configuration
 and every fuel.  Missing from the proved fragment (covered only by the
-correspondence and the direct oracle on generated cases): suppression,
+correspondence and the direct oracle on generated cases):
 separators, `eolterm`, `#`, predicates, regex matches that can be empty, rule
 references and rule modifiers, the `Comment` rule, and the model construction
 (`Tx.build` vs the object semantics of `Sem`).
@@ -36,7 +37,7 @@ open Peg Tx.Sim
 /-! ## the proved fragment -/
 
 /-- **C01 on rule-free PEG expressions.**  `e`: any expression over string matches with sequence,
-ordered choice, `?`, `*`, `+` (`frag`), in `DocFragment` (`docExpr`).  `g`: any parser model that
+ordered choice, `?`, `*`, `+` and suppression (`frag`), in `DocFragment` (`docExpr`).  `g`: any parser model that
 contains the block `Tx.emit` produces for `e` (at `pre.length`), without memoization and comment
 model, over the same text and token table as the semantics, no token matching the empty string.
 `s`: any parser state in the whitespace context `c`.  Then for all fuels `n`, `m`: unless one side
